@@ -3,6 +3,8 @@ import json, sys
 sys.path.insert(0, "/verif/py")
 
 CLAIMS = {
+ "C05": ("Theorem find_refines_map: for every history of index inserts/removals (the library's own step programs: mkdir -p, O_CREAT|O_APPEND open, one append) from any tree with a well-shaped index area, every key's lookup equals the abstract map 'last write wins, removal clears', for an arbitrary hash function (so colliding keys sharing a bucket are inside the theorem); plus frame conditions of one insert (props/C05.v, closed). The records' codec round trip is a hypothesis here (wf_rec), validated by vm_compute on examples and discharged by C11's codec theorems as they land. Tie to /repo: exhaustive short histories and random long ones (index::insert, write, remove, mixed sync/async) on three flavours, lookups after every step via find/metadata/read/list.",
+         "proof (induction over histories, refinement to a map) + differential correspondence", "7/C05"),
  "C06": ("Theorems over arbitrary bucket bytes (all damage at once): entries are decided per line, damage to one line changes only that line's contribution, a destroyed newline fuses exactly two records, an appended record is effective after any tail without a pending CR, nothing is fabricated (props/C06.v, closed under the global context). Tie to /repo: differential run of the extracted model against the sync/async-std/tokio binaries on damaged buckets (every cut length of a record, bit flips, garbage/invalid-UTF-8/CR lines, fused and duplicated fragments), lookups through both API families and the listing.",
          "proof + differential correspondence", "7/C06"),
  "C10": ("Theorems for arbitrary record lists / bucket bytes: an entry is listed iff a lookup of its key finds exactly it, listed keys are pairwise distinct (props/C10.v, closed). Tie to /repo: random histories and damaged buckets, list_sync vs metadata on every key, compared field by field with the extracted model on three flavours. Cross-bucket placement (a record planted in a foreign bucket) is outside the theorem (BucketPlacement hypothesis, DESIGN 7/C10).",
